@@ -113,7 +113,9 @@ def _deepcopy_sem(p: Program, fn: Any) -> list[str]:
 
     n = 0
     for k in range(0, 4):
-        span = [possem.Obj('Tok', {}, f't{i}') for i in range(k)]
+        # the tokens of a span are of every kind: a claimed comment, a comment nobody has claimed (it still lies inside the span), other tokens
+        span = [possem.Obj('Tok', [{'claimed': True}, {'claimed': False}, {}][i % 3], f't{i}' + [' (a claimed comment)', ' (an unclaimed comment)', ''][i % 3])
+                for i in range(k)]
         outside = [possem.Obj('Tok', {}, 'before'), possem.Obj('Tok', {}, 'after')]
         it = Interp(span, outside)
         store = possem.Obj('Store', {}, 'store')
@@ -201,17 +203,8 @@ def rule_copy_store(ctx: RuleContext, p: Program, rid: str) -> None:
     problems = _deepcopy_sem(p, fn)
     ctx.check(not problems, rid, 'models.base:RawTreeModel.__deepcopy__', '; '.join(problems) or 'ok', '; '.join(problems),
               fn.where, note='interpreted over spans of 0..3 abstract tokens: deep copies -> fresh store -> clone with mapping transformer')
-    # the mapping transformer looks tokens up by id (never returns its argument)
-    mt = p.cls('MappingTokenTransformer', 'models.base')
-    tf = p.method(mt, 'transform', inherited=False)
-    e = single_return_expr(tf)
-    # the attribute that __init__ fills from its mapping parameter, whatever it is called
-    init = p.try_method(mt, '__init__', inherited=False)
-    map_attrs = {self_attr(a.targets[0]) for a in (walk_no_nested(init.node) if init else []) if isinstance(a, ast.Assign)
-                 and len(a.targets) == 1 and self_attr(a.targets[0]) and isinstance(a.value, ast.Name) and a.value.id in init.params[1:]}
-    ok = e is not None and any(f'self.{m}[id({tf.params[1]})]' in norm(e) for m in map_attrs if m)
-    ctx.check(ok, rid, 'models.base:MappingTokenTransformer.transform', norm(e) if e else '',
-              'MappingTokenTransformer.transform does not return the mapped copy', tf.where, note=norm(e) if e else '')
+    # (the transformer is evaluated above on every token of the span, whatever its spelling: a shape clause on `self._map[id(token)]` was
+    # dropped in round 8 -- `.get(id(token), token)` with a complete map behaves the same)
     # no tree model overrides __deepcopy__
     for c in p.tree_model_classes():
         ctx.check('__deepcopy__' not in c.attrs, rid, f'{c.name}', '__deepcopy__ override',
